@@ -11,8 +11,9 @@ from .facts import strip_generics
 
 
 class CallGraph:
-    def __init__(self, facts):
+    def __init__(self, facts, inline_view=False):
         self.fa = facts
+        self.inline_view = inline_view      # walk the inlined views: folded helpers are no nodes of their own
         self.by_n = {}
         for b in facts.bodies.values():
             self.by_n.setdefault(b.npath, b)
@@ -54,6 +55,9 @@ class CallGraph:
             return e
         out = []
         seen = set()
+        if self.inline_view:
+            from . import inline
+            body = inline.inlined(self.fa, body)
         for i, blk in enumerate(body.blocks):
             if blk.get("cleanup"):
                 continue
